@@ -230,3 +230,92 @@ def run(res, facts, tier):
     r2_sinks(res, facts)
     r3_walkers(res, facts)
     res.assume('C13: that the whitespace tester list selects the right nodes, and equality of the output with the pre-stripped document, are behavioural and not decided')
+
+
+# ----------------------------------------------------------------------------------------------- R4: order of the strip / preserve declarations
+def r4_declaration_order(res, facts):
+    """internalShouldStripSourceNode takes the first declaration that matches.  XSLT 1.0 §3.4: import precedence decides first, then the
+    default priority of the name test, then the later declaration.  So one stylesheet's own declarations are kept sorted by match score
+    (later first among equals) and the declarations of its imports are APPENDED, in the order of m_imports (highest precedence first)."""
+    import itertools
+    from .c10_lists import VecMachine, Vec, Pat
+    from ..mast import Unsupported
+    r = res.rule('C13-R4', 'xsl:strip-space / xsl:preserve-space declarations: addWhitespaceElement (interpreted on every vector of up to 3 declarations over 3 match scores) keeps one '
+                 'stylesheet\'s declarations sorted by match score, later first among equals; postConstruction only appends the declarations of the imports, in import order; the '
+                 'lookup takes the first match', floor=100)
+    a = facts.asts('Stylesheet::addWhitespaceElement')[0]
+    SCORES = (1, 2, 3)
+    n = 0
+    bad = 0
+    for ln in range(0, 4):
+        for sc in itertools.product(SCORES, repeat=ln):
+            # an existing vector as addWhitespaceElement would have built it: insertion order = position
+            items = []
+            for pos, s in enumerate(sc):
+                items.append(Pat(s, pos))
+            items.sort(key=lambda p: (-p.prio, -p.pos))
+            for ns in SCORES:
+                n += 1
+                new = Pat(ns, ln)
+                vec = Vec(list(items))
+                m = VecMachine(facts, {a['params'][0]['id']: new, '.m_whitespaceElements': vec})
+                m.fuel = 2000
+                try:
+                    m.call(a['body'])
+                except Unsupported as u:
+                    raise AnalysisBroken('addWhitespaceElement outside the interpreted subset: %s' % u)
+                want = sorted(items + [new], key=lambda p: (-p.prio, -p.pos))
+                site = 'addWhitespaceElement(%s, %s)' % (items, new)
+                if [id(x) for x in vec.items] == [id(x) for x in want]:
+                    r.ok(site)
+                else:
+                    bad += 1
+                    if bad == 1:
+                        r.violation(site, 'leaves %s, required %s (higher match score first, the later declaration first among equals)' % (vec.items, want), common.file_line(a))
+                    else:
+                        r.instances += 1
+    # postConstruction: imported declarations are appended
+    pc = facts.asts('Stylesheet::postConstruction')[0]
+    writes = []
+    for c in calls(pc['body']):
+        if c.get('k') == 'MCall' and c.get('n') in ('insert', 'push_back', 'erase', 'swap', 'assign', 'clear', 'resize') and pp(strip_casts(c.get('obj'))) == 'm_whitespaceElements':
+            writes.append(c)
+    if not writes:
+        r.violation('postConstruction: imported declarations', 'the declarations of the imports are not merged into m_whitespaceElements at all', common.file_line(pc))
+    for c in writes:
+        site = 'postConstruction: m_whitespaceElements.%s' % c['n']
+        args = [pp(strip_casts(x)) for x in c.get('args', [])]
+        if c['n'] == 'insert' and len(args) == 3 and args[0] == 'm_whitespaceElements.end()' and args[1].endswith('m_whitespaceElements.begin()') and args[2].endswith('m_whitespaceElements.end()'):
+            r.ok(site, 'appends the import\'s declarations: (%s)' % ', '.join(args)[:90])
+        else:
+            r.violation(site, 'imported declarations are merged with %s(%s): only appending keeps import precedence ahead of the name test\'s priority — a more specific declaration of an '
+                        'imported stylesheet would override a less specific one of the importing stylesheet' % (c['n'], ', '.join(args)[:80]), common.file_line(pc, c))
+    # the loop that appends runs over m_imports from begin() to end()
+    loops = [x for x in walk(pc['body']) if x.get('k') in ('While', 'For') and any(cc is w for w in writes for cc in walk(x))]
+    ok_dir = False
+    for lp in loops:
+        its = [v for x in walk(pc['body']) if x.get('k') == 'Decl' for v in x.get('vars', []) if v.get('init') is not None and 'm_imports.begin()' in pp(v['init'])]
+        if its and any(x.get('k') == 'Un' and x.get('op') == '++' for x in walk(lp['body'])):
+            ok_dir = True
+    if writes:
+        if ok_dir:
+            r.ok('postConstruction: imports visited from m_imports.begin() (highest precedence) upwards')
+        else:
+            r.violation('postConstruction: import order', 'the imports are not visited from m_imports.begin() with ++', common.file_line(pc))
+    # lookup takes the first match
+    for b in facts.asts('StylesheetRoot::internalShouldStripSourceNode', must=False):
+        rets = [x for x in walk(b['body']) if x.get('k') == 'Return' and 'eStrip' in pp(x.get('e'))]
+        loops = [x for x in walk(b['body']) if x.get('k') in ('While', 'For', 'Do') and any(y is rr for rr in rets for y in walk(x))]
+        if rets and loops and any('m_whitespaceElements.begin()' in pp(v.get('init')) for x in walk(b['body']) if x.get('k') == 'Decl' for v in x.get('vars', []) if v.get('init') is not None):
+            r.ok('internalShouldStripSourceNode: returns at the first declaration that matches, starting at begin()')
+        else:
+            r.violation('internalShouldStripSourceNode', 'the lookup does not return at the first matching declaration from begin()', common.file_line(b))
+    return r
+
+
+_run_c13_prev = run
+
+
+def run(res, facts, tier):
+    _run_c13_prev(res, facts, tier)
+    r4_declaration_order(res, facts)
